@@ -22,7 +22,7 @@ RULE = (
     "Non-trivial = at least one shape with a property contested by two sources or inherited."
 )
 BUDGET = {"quick": 12000, "thorough": 400000}
-TIME_CAP = {"quick": 90, "thorough": 1700}
+TIME_CAP = {"quick": 240, "thorough": 1700}
 ANCHORS = ["SVG.parse", "GraphicObject.property_by_values", "GraphicObject.render", "GraphicObject.reify", "GraphicObject.implicit_stroke_width", "Color.parse", "Color.opacity"]
 REQUIRED_MONITORS = ["fill", "stroke", "stroke-width-reified", "stroke-width-implicit", "rendered-list", "source-pair"]
 
